@@ -204,40 +204,97 @@ def rules(rep, m):
             r4.fail()
         else:
             r4.ok()
-    ax = FuncCtx(m, al)
-    amp = al.params[0]["name"]
-    ast_ = [(ax.canon(l), render(r)) for l, r, k, n_ in inv.stores(al) if r is not None]
-    rv = [render(kids(x)[0]) for x in walk(al.body) if x["kind"] == "ReturnStmt"]
-    refill = any(x["kind"] == "IfStmt" and ax.canon(kids(x)[0]) == "(%s->next_obj == NULL)" % amp and
-                 any(callee_ref(y) == "cmi_mempool_expand" for y in walk(kids(x)[1]) if y["kind"] == "CallExpr")
-                 for x in walk(al.body))
-    pop_ok = False
-    opv = None
-    for x in walk(al.body):
-        if x["kind"] == "VarDecl" and kids(x) and ax.canon(kids(x)[0]) == amp + "->next_obj":
-            opv = x["name"]
-    if opv:
-        pop_ok = (amp + "->next_obj", "*%s" % opv) in ast_ and rv == [opv]
-        # the head is read after the refill
-        di = next((i for i, s in enumerate(kids(al.body)) for y in walk(s) if y["kind"] == "VarDecl" and y.get("name") == opv), None)
-        ri = next((i for i, s in enumerate(kids(al.body)) if s["kind"] == "IfStmt" and "next_obj" in render(kids(s)[0])), None)
-        pop_ok = pop_ok and di is not None and ri is not None and ri < di
-    r4.instance("alloc: refill when empty %s; pop %s" % (refill, pop_ok))
-    rep.sample({"rule": "R-C20-4", "alloc_stores": ast_, "returns": rv})
-    if not (refill and pop_ok):
-        rep.finding(r4, al.name, "pop", "alloc does not (refill when empty and then) hand out the head and advance to the "
-                    "head's first word", where=m.rel(al.where))
+    def lin_exec(f, head_field):
+        """Sequential symbolic execution of a small push/pop routine: values are terms over the parameters, HEAD0 (the
+        head on entry), HEAD1 (the head after a refill) and mem[x] (first word of x).  Returns (head, mem, ret, refilled)."""
+        mpn = f.params[0]["name"]
+        st = {"head": "HEAD0", "mem": {}, "env": {}, "ret": None, "refill": None}
+
+        def ev(n):
+            if is_null_expr(n):
+                return "NULL"
+            n = strip(n, casts=True)
+            k = n["kind"]
+            if k == "IntegerLiteral" and int(n["value"]) == 0:
+                return "NULL"
+            if k == "DeclRefExpr":
+                if n["ref"]["id"] in st["env"]:
+                    return st["env"][n["ref"]["id"]]
+                return n["ref"]["name"]
+            if k == "MemberExpr" and n.get("name") == head_field and render(strip(kids(n)[0], casts=True)) == mpn:
+                return st["head"]
+            if k == "UnaryOperator" and n.get("opcode") == "*":
+                a_ = ev(kids(n)[0])
+                return st["mem"].get(a_, "mem[%s]" % a_)
+            if is_null_expr(n):
+                return "NULL"
+            return render(n)
+
+        def do(s_, guarded=False):
+            k = s_["kind"]
+            if k == "CompoundStmt":
+                for c_ in kids(s_):
+                    do(c_, guarded)
+            elif k == "DeclStmt":
+                for d in kids(s_):
+                    if d["kind"] == "VarDecl" and kids(d):
+                        st["env"][d["id"]] = ev(kids(d)[0])
+            elif k == "BinaryOperator" and s_.get("opcode") == "=":
+                l = strip(kids(s_)[0], casts=True)
+                v_ = ev(kids(s_)[1])
+                if l["kind"] == "DeclRefExpr":
+                    st["env"][l["ref"]["id"]] = v_
+                elif l["kind"] == "MemberExpr" and l.get("name") == head_field:
+                    st["head"] = v_
+                elif l["kind"] == "UnaryOperator" and l.get("opcode") == "*":
+                    st["mem"][ev(kids(l)[0])] = v_
+                else:
+                    raise AnalysisBroken("%s: store to %s not understood" % (f.name, render(l)))
+            elif k == "IfStmt":
+                c_ = ev_cond(kids(s_)[0])
+                calls = [callee_ref(y) for y in walk(kids(s_)[1]) if y["kind"] == "CallExpr"]
+                if c_ == "head-empty" and "cmi_mempool_expand" in calls and len(kids(s_)) == 2:
+                    st["refill"] = st["head"]
+                    st["head"] = "HEAD1"
+                    st["mem"] = {}
+                else:
+                    raise AnalysisBroken("%s: conditional %s not understood" % (f.name, render(kids(s_)[0])))
+            elif k == "ReturnStmt":
+                st["ret"] = ev(kids(s_)[0]) if kids(s_) else None
+            elif is_assert_stmt(s_) or k in ("NullStmt", "DoStmt", "ParenExpr", "ConditionalOperator", "CStyleCastExpr"):
+                return
+            else:
+                raise AnalysisBroken("%s: statement %s not understood" % (f.name, k))
+
+        def ev_cond(c_):
+            c_ = strip(c_, casts=True)
+            if c_["kind"] == "BinaryOperator" and c_.get("opcode") == "==":
+                a_, b_ = ev(kids(c_)[0]), ev(kids(c_)[1])
+                if {a_, b_} == {st["head"], "NULL"}:
+                    return "head-empty"
+            if c_["kind"] == "UnaryOperator" and c_.get("opcode") == "!" and ev(kids(c_)[0]) == st["head"]:
+                return "head-empty"
+            return None
+        do(f.body)
+        return st
+
+    from ..vals import is_assert_stmt
+    sa_ = lin_exec(al, "next_obj")
+    r4.instance("alloc: refill when empty: %s; returns %s; head becomes %s" % (sa_["refill"] is not None, sa_["ret"], sa_["head"]))
+    rep.sample({"rule": "R-C20-4", "alloc": {"ret": sa_["ret"], "head": sa_["head"], "refill": sa_["refill"]}})
+    if sa_["refill"] != "HEAD0" or sa_["ret"] != "HEAD1" or sa_["head"] != "mem[HEAD1]":
+        rep.finding(r4, al.name, "pop", "alloc does not (refill when empty and then) hand out the head and advance to the head's "
+                    "first word: it returns %s and leaves the head at %s" % (sa_["ret"], sa_["head"]), where=m.rel(al.where))
         r4.fail()
     else:
         r4.ok()
-    fx = FuncCtx(m, fr)
-    fmp, fop = fr.params[0]["name"], fr.params[1]["name"]
-    fst = [(render(l), render(r)) for l, r, k, n_ in inv.stores(fr) if r is not None]
-    r4.instance("free stores %s" % fst)
-    want = [("*%s" % fop, "%s->next_obj" % fmp), ("%s->next_obj" % fmp, fop)]
-    if fst != want:
-        rep.finding(r4, fr.name, "push", "free stores %s; expected the old head into the object's first word, then the object "
-                    "as the new head (in this order)" % fst, where=m.rel(fr.where))
+    sf_ = lin_exec(fr, "next_obj")
+    fop = fr.params[1]["name"]
+    r4.instance("free: first word of the object becomes %s; head becomes %s" % (sf_["mem"].get(fop), sf_["head"]))
+    rep.sample({"rule": "R-C20-4", "free": {"mem": sf_["mem"], "head": sf_["head"]}})
+    if sf_["mem"].get(fop) != "HEAD0" or sf_["head"] != fop or len(sf_["mem"]) != 1:
+        rep.finding(r4, fr.name, "push", "free leaves the object's first word = %s and the head = %s; expected the old head in "
+                    "the object's first word and the object as the new head" % (sf_["mem"].get(fop), sf_["head"]), where=m.rel(fr.where))
         r4.fail()
     else:
         r4.ok()
